@@ -171,9 +171,13 @@ func (s *Schema) Validate(document jschema.Document) (err error) {
 		return err
 	}
 
-	if _, ok := document.(*json.Document); !ok {
+	jsonDocument, ok := document.(*json.Document)
+	if !ok {
 		return fmt.Errorf("support only JSON documents, but got %T", document)
 	}
+	// The document may have been read before, by an earlier Validate or by
+	// the caller: the verdict is about the whole document.
+	jsonDocument.Rewind()
 
 	if s.inner.RootNode() == nil {
 		return errors.NewDocumentError(s.file, errors.ErrEmptySchema)
